@@ -87,7 +87,7 @@ def general_case(s):
     return {"clause": "C10.concat_equal", "clause2": "C10.no_revisit", "clause3": "C10.resume_at_next_step",
             "a": a, "b": b, "atol": common.num(2e-4), "rtol": common.num(1e-4), "qsmall": common.num(1e-4),
             "numkeys": sorted(a[0]["num"]) if a else [], "stkeys": sorted(a[0]["st"]) if a else [],
-            "boundary": [p + H for p in s["pauses"] if p + H <= s["Dur"]], "scn": s}
+            "boundary": [] if s.get("RepStep") else [p + H for p in s["pauses"] if p + H <= s["Dur"]], "scn": s}
 
 
 def main(tier, replay):
@@ -163,6 +163,10 @@ def main(tier, replay):
             grid = list(range(0, s["Dur"], s["H"]))
             s["pauses"] = sorted(rnd.sample(grid, min(rnd.choice([1, 1, 2]), len(grid))))
             s["pickle"] = rnd.random() < 0.5
+            if i % 4 == 1:
+                # reports every second hydraulic step: the continued run must stay on the absolute report grid
+                s["all"] = False
+                s["RepStep"] = 2 * s["H"]
             gens.append(s)
         # schedules that cut junctions off and reconnect them (C09's multigraphs), paused so that a part ends with junctions
         # isolated and the next part starts exactly at the step that reconnects them (and the other way round)
